@@ -741,7 +741,7 @@ class WalletTransaction(Transaction):
                 prev_txid=inp.prev_txid, output_n=inp.output_n, keys=inp_keys, unlocking_script=inp.script,
                 script_type=inp.script_type, sequence=sequence, index_n=inp.index_n, value=inp.value,
                 double_spend=inp.double_spend, witness_type=inp.witness_type, network=network, address=inp.address,
-                witnesses=inp.witnesses))
+                witnesses=inp.witnesses, sigs_required=hdwallet.multisig_n_required, sort=hdwallet.sort_keys))
 
         outputs = []
         for out in db_tx.outputs:
